@@ -204,12 +204,12 @@ SUBCHECKS = [
                   "decades, alpha in [0.1,3]: sum V_l/N_l <= measured variance share of rmse^2, measured squared bias "
                   "tolerance + variance share <= rmse^2, monotone in V_l, inputs untouched; non-trivial = >= 3 levels "
                   "with distinct positive V and positive C",
-             strategy=strat_alloc, budget={"quick": 2000, "thorough": 40000}),
+             strategy=strat_alloc, budget={"quick": 6000, "thorough": 40000}),
     SubCheck("adaptive-trajectories", body_runs, classify_runs,
              rule="adaptive runs of the real engine on the scripted coupling (as C05, no controls): no sample / level "
                   "above the maximum, returned only if the last bias test passed or L = maximum, last allocation "
                   "computed from the final variances and satisfied within the 1% rule, terminated within the budget; "
                   "non-trivial = a level was added or the run stopped at the maximum level",
-             strategy=strat_runs, budget={"quick": 320, "thorough": 5000}, shards={"quick": 16, "thorough": 16},
+             strategy=strat_runs, budget={"quick": 960, "thorough": 5000}, shards={"quick": 16, "thorough": 16},
              essential_labels=("stopped-on-bias-test", "stopped-at-maximum-level")),
 ]
